@@ -212,12 +212,22 @@ func patchRules(p *core.Program, r *core.Report, rule string) {
 	}
 	w := &eng.Walker{Info: info}
 	paths := w.Func(fd.Body)
+	ld := eng.SingleDefs(info, fd.Body)
 	okType, okLoc, okAssign := true, true, true
 	for _, path := range paths {
 		if path.Term == "panic" {
 			continue
 		}
-		tAt, lAt, aAt := -1, -1, -1
+		// the old node's type / location are READ (index tRead / lRead on the path) and handed to
+		// the replacement's setter, directly or through a name; the read must precede the
+		// assignment that overwrites *node
+		tRead, lRead, aAt := -1, -1, -1
+		callAt := map[*ast.CallExpr]int{}
+		for i, a := range path.Atoms {
+			if a.Kind == "call" {
+				callAt[a.Call] = i
+			}
+		}
 		for i, a := range path.Atoms {
 			switch a.Kind {
 			case "call":
@@ -225,7 +235,7 @@ func patchRules(p *core.Program, r *core.Report, rule string) {
 				if !ok || !isParam(sel.X, 1) || len(a.Call.Args) != 1 {
 					continue
 				}
-				inner, ok := eng.Unparen(a.Call.Args[0]).(*ast.CallExpr)
+				inner, ok := ld.Resolve(a.Call.Args[0]).(*ast.CallExpr)
 				if !ok {
 					continue
 				}
@@ -233,11 +243,15 @@ func patchRules(p *core.Program, r *core.Report, rule string) {
 				if !ok || !derefOld(isel.X) {
 					continue
 				}
+				at, seen := callAt[inner]
+				if !seen {
+					continue
+				}
 				if sel.Sel.Name == "SetType" && isel.Sel.Name == "Type" {
-					tAt = i
+					tRead = at
 				}
 				if sel.Sel.Name == "SetLocation" && isel.Sel.Name == "Location" {
-					lAt = i
+					lRead = at
 				}
 			case "assign":
 				as := a.Node.(*ast.AssignStmt)
@@ -246,10 +260,10 @@ func patchRules(p *core.Program, r *core.Report, rule string) {
 				}
 			}
 		}
-		if tAt < 0 || (aAt >= 0 && tAt > aAt) {
+		if tRead < 0 || (aAt >= 0 && tRead > aAt) {
 			okType = false
 		}
-		if lAt < 0 || (aAt >= 0 && lAt > aAt) {
+		if lRead < 0 || (aAt >= 0 && lRead > aAt) {
 			okLoc = false
 		}
 		if aAt < 0 {
